@@ -505,6 +505,7 @@ func (interp *Interpreter) EvalPath(path string) (res reflect.Value, err error) 
 
 func (interp *Interpreter) evalPath(path string, id uint64) (res reflect.Value, err error) {
 	if !isFile(interp.opt.filesystem, path) {
+		interp.beginEval(id)
 		_, err := interp.importSrc(mainID, path, NoTest)
 		return res, err
 	}
@@ -546,6 +547,7 @@ func (interp *Interpreter) EvalPathWithContext(ctx context.Context, path string)
 // The main function, test functions and benchmark functions are internally compiled but not
 // executed. Test functions can be retrieved using the Symbol() method.
 func (interp *Interpreter) EvalTest(path string) error {
+	interp.beginEval(interp.runid())
 	_, err := interp.importSrc(mainID, path, Test)
 	return err
 }
@@ -555,7 +557,17 @@ func isFile(filesystem fs.FS, path string) bool {
 	return err == nil && fi.Mode().IsRegular()
 }
 
+// beginEval marks the root frame as belonging to the run generation id, unless
+// that generation has been cancelled already. Source packages imported while the
+// evaluation is compiled run their initialisation in that generation.
+func (interp *Interpreter) beginEval(id uint64) {
+	if id == interp.runid() {
+		interp.frame.setrunid(id)
+	}
+}
+
 func (interp *Interpreter) eval(src, name string, inc bool, id uint64) (res reflect.Value, err error) {
+	interp.beginEval(id)
 	prog, err := interp.compileSrc(src, name, inc)
 	if err != nil {
 		return res, err
